@@ -31,6 +31,12 @@ CLAIMS = {
  "C11": ("Frame conditions (assigns clauses) of the functions of the resolve walk are checked store by store: apart from freshly allocated objects, the result map of the call and the declared caches, nothing is written.",
          "Field.ConType/Field.Args writes are declared at array granularity; the sortArgs write to Field.Args is a recorded known finding; the relational sentence (same response as a fresh parse) is a consequence of the frame, not proved as a two-run relation",
          "4 C11"),
+ "C13": ("Validation rules are proved in both directions (error iff the rule is broken) for: names (blank, non-name character, leading digit, reserved prefix; byte-exact against the 256-entry character table), type names, IsInputType/IsOutputType against the recursive definition of input/output type, IsLocation, Locate per element kind, typeEqual against structural equality, uniqueness in the four name-indexed member lists (add refuses exactly the duplicates and never replaces an entry), Union.Validate, Base.validateFieldDefs / Interface.Validate (field and argument names, output type in field position, input type in argument position, non-empty), Input.Validate.",
+         "Object.Validate interface conformance, Enum/Schema/Directive.Validate, validateDirUse, addTypes and ReplaceRefs are not yet under contract; 'names the offender' is not decided (error messages are opaque fmt.Errorf results); Locate(*Arg) is a recorded known finding",
+         "4 C13"),
+ "C17": ("Resolve of Scalar, Input, List, NonNull, Arg, InputField, FieldDef, EnumValue, Directive and Object is proved against the introspection table of the statement, one postcondition per meta-field (kind, name, description, fields with and without includeDeprecated, interfaces, ofType, args, type, isDeprecated, deprecationReason, locations, null for the inapplicable fields); Nth/Len of the five list views; GetDirective, isDeprecated, getBoolArg.",
+         "Resolve of Interface, Union, Enum, Schema/Root and the __type/__schema entry points are not yet under contract; the completeness direction of Object.fields without deprecated ones is not claimed; wrapper name (\"[T]\", \"T!\") is a recorded known finding pinned by the suite",
+         "4 C17"),
 }
 NA = {
  "C16": "relational over orderings/partitions of whole loads: a function contract speaks about one call, and deriving the relation needs a functional grammar specification of the whole single-pass SDL parser (DESIGN.md section 4, C16)",
